@@ -366,6 +366,9 @@ func TestCheck(t *testing.T) {
 		}
 		rng := r.Rand("name-boundary", i)
 		w := reflabel.Boundary(rng)
+		if i%3 == 2 {
+			w = reflabel.FarPointer(rng)
+		}
 		var code int
 		var v []byte
 		switch rng.IntN(3) {
@@ -379,6 +382,28 @@ func TestCheck(t *testing.T) {
 		judge(r, "name-boundary", code, v)
 		msg := append([]byte{byte(1 + rng.UintN(11)), 9, 8, 7, byte(code >> 8), byte(code), byte(len(v) >> 8), byte(len(v))}, v...)
 		judge(r, "name-boundary", -1, msg)
+	}
+	// (6) relay chains of every depth 1..200 (the framing rules have no depth limit; 200 levels are 7.7 kB), made of
+	//     forward and reply headers, well-formed and with the innermost option cut by one octet
+	if r.Shard == 0 {
+		for depth := 1; depth <= 200; depth++ {
+			for variant := 0; variant < 3; variant++ {
+				m := []byte{byte(1 + depth%11), 1, 2, 3, 0, 8, 0, 2, 0, byte(depth)}
+				if variant == 2 {
+					m = m[:len(m)-1]
+					m[7] = 1
+				}
+				for k := 0; k < depth; k++ {
+					h := make([]byte, 34)
+					h[0] = byte(12 + (k*variant)%2)
+					h[1] = byte(k)
+					h[17], h[33] = byte(k), byte(depth)
+					m = append(h, append([]byte{0, 9, byte(len(m) >> 8), byte(len(m))}, m...)...)
+				}
+				judge(r, "relay-depth", -1, m)
+			}
+		}
+		r.Set("relay_depths_swept", "1..200")
 	}
 	r.Set("parseoption_exhaustive_lengths", "0..64 for every typed code")
 	r.Set("typed_codes_discovered", v6util.SortedCodes(typed))
